@@ -853,6 +853,28 @@ def _staletrim_rule(chk, prog):
         if pops and cmps and not wakes:
             trimmers.add(fn.name)
     n = 0
+    # a trimmer that stops at the first live entry leaves every stale registration behind it: one fiber parked for good
+    # in (ev/take ch) makes all later cancelled takes pile up.  Somewhere it must go through the whole ring: a loop that
+    # pops and compares and does not leave at the first live entry.
+    for t in sorted(trimmers):
+        fn = tu.funcs[t]
+        chk.analysed(fn)
+        n += 1
+        chk.instance(rule)
+        full = False
+        for lp in [x for x in fn.nodes if x.k in ("for", "while", "do")]:
+            body = list(lp.walk())
+            if any(y.k == "call" and y.callee == "janet_q_pop" for y in body) and \
+                    any(y.k == "mem" and y.field == "sched_id" for y in body) and not any(y.k == "break" for y in body) and \
+                    not any(y.k == "return" for y in body):
+                full = True
+        if full:
+            chk.ok(rule, "%s: has a pass over every entry of the ring" % t)
+        else:
+            chk.violation(rule, "ev.c", t, "head-only", fn.loc,
+                          "%s only drops stale registrations at the head of the queue and stops at the first live one: behind a "
+                          "fiber that stays parked, the registrations of cancelled or timed-out waits are never removed and keep "
+                          "their fibers alive without bound" % t)
     for fn in tu.funcs.values():
         regs = [c for c in fn.calls("janet_q_push") if c.args and any(y.k == "mem" and y.field in ("read_pending", "write_pending") for y in c.args[0].walk())]
         if not regs:
